@@ -1,6 +1,7 @@
 import SamVerif.Props.C17
+import SamVerif.Props.C17b
 /-! Axiom audit of every C17 property theorem (parsed by vlib/common.py). -/
-open SamVerif.Heap
+open SamVerif.Heap SamVerif.PStr
 #print axioms inv_reachable
 #print axioms slot_step
 #print axioms handles_eq_iff_strings_eq
@@ -14,3 +15,6 @@ open SamVerif.Heap
 #print axioms allocString_fresh
 #print axioms sweep_in_bounds
 #print axioms makePermanent_no_panic
+#print axioms bytesOf_lt
+#print axioms inline_tag_disjoint
+#print axioms raw_eq_iff
